@@ -23,6 +23,9 @@ CHECKS = {
  "C11": ("2/C11", TECH + ": all expression trees up to an operator-count bound over every operator token of the 13 precedence levels; two renderings, all token-gap decorations, all trailing tokens",
          "every tree within the bound is rendered minimally and fully parenthesised and compiled by the real parser; the two compiled expression trees must be identical (reflective AST dump) and evaluate identically; every gap decoration and trailing token of every tree with <=2 operators is compiled as well",
          "the harness's precedence table is trusted; trees with more operator nodes than the bound are not covered"),
+ "C17": ("2/C17", TECH + ": all option lists up to a length bound, in every order, over finite option alphabets x reference sites; reference fold of the contract",
+         "every evaluate-option list (<=3/4 options) and compile-option list (<=2/3 options) over the alphabets is applied to the real Evaluate/Compile for every program / call site; outcomes (values by pointer identity, error sentinels via errors.Is, call counters and call logs of instrumented custom functions) are compared with a fold of the declared contract",
+         "the contract fold is hand-written from the statement; acceptance of variadic custom functions is left open (totality only)"),
  "C13": ("2/C13", TECH + ": items (value pool + string grammar) x 8 targets x {toT, convertsToT} with relational laws",
          "complete enumeration of the item pool and the string grammar against the laws of the statement and a hand-written conversion table",
          "conversion table and per-string validity parsers are hand-written in the harness"),
